@@ -26,7 +26,7 @@ const (
 	c46DocumentedSigningMargin   = 300 // blocks between the signing timeout and the proposal expiry
 	c46DocumentedHeartbeatMargin = 25  // blocks between the inactivity claim timeout and the expiry
 	c46NominalBlockTime          = 12 * time.Second
-	c46HangGuard                 = 20 * time.Second // real time; only decides "this context is never cancelled"
+	c46HangGuard                 = 120 * time.Second // real time; only decides "this context is never cancelled"
 )
 
 // c46Case is one configuration: an action type (heartbeat has three flavours that
